@@ -108,7 +108,7 @@ static void par_run(Ctx& c) {
     GenOpts g; g.min_modes = 2; g.max_modes = c.thorough() ? (r.coin(0.3) ? 4 : 3) : (r.coin(0.3) ? 4 : 2); g.beta_hi = 10; g.allow_six = false; g.hetero = true;
     g.pclasses = {"generic", "integers", "ph", "negU", "free", "atomic", "equal"};
     sp.m = gen_model(r, g); sp.pmode = (r.coin(0.25) || !sp.m.balanced_spins()) ? PM_IGNORE : PM_DEFAULT;
-    const int N = sp.m.nmodes(); const double beta = sp.m.beta;
+    const int N = sp.m.nmodes(); double beta = sp.m.beta;
     auto rq = [&]() { Q4 q = {(int)r.range(0, N - 1), (int)r.range(0, N - 1), (int)r.range(0, N - 1), (int)r.range(0, N - 1)}; return q; };
     { int a = (int)r.range(0, N - 1), b = (int)r.range(0, N - 1); sp.single.push_back({a, b, b, a}); if (r.coin()) sp.single.push_back(rq()); }
     // container components: sometimes fewer than, equal to, a non-multiple of, and more than the rank count; some vanish identically
@@ -120,6 +120,16 @@ static void par_run(Ctx& c) {
     long nf = r.coin(0.3) ? 200 : (long)r.range(1, 30);
     for (long t = 0; t < nf; ++t) { long n1 = r.range(-6, 6), n2 = r.range(-6, 6), n3 = r.range(-6, 6); auto w = [&](long n) { return cd(0, (2 * n + 1) * M_PI / beta); }; sp.freqs.push_back(boost::make_tuple(w(n1), w(n2), w(n3))); }
     sp.clear1 = r.coin(); sp.clear2 = r.coin(); sp.split = r.coin(); sp.usefreqs1 = r.coin(0.7); sp.usefreqs2 = r.coin(0.7);
+    if (c.k < 2) {
+        // the first two cases are a fixed tiny workload (one Hubbard atom, frequency tables on both paths): few 2PGF parts, so that already a
+        // handful of ranks exceeds the number of jobs of a dispatch round (ranks without a job take part in the reductions / broadcasts)
+        sp.m = ModelSpec(); sp.m.pclass = "atom"; sp.m.beta = 3.0; SiteSpec s; s.label = "A"; s.norb = 1; s.nspin = 2; sp.m.sites.push_back(s);
+        Op o; o.kind = Op::COULOMB_S; o.a = o.b = 0; o.v1 = 1.3; o.v2 = (c.k == 0 ? -0.4 : -0.65); sp.m.ops.push_back(o);
+        sp.pmode = PM_DEFAULT; sp.single = {{0, 1, 1, 0}, {0, 0, 0, 0}}; sp.contset = {{0, 1, 0, 1}, {0, 1, 1, 0}}; sp.second.clear();
+        sp.usefreqs1 = sp.usefreqs2 = true; sp.clear1 = (c.k == 1); sp.clear2 = (c.k == 1); sp.split = (c.k == 0);
+        beta = sp.m.beta; sp.freqs.clear();
+        for (long n1 = -2; n1 <= 1; ++n1) for (long n2 = -2; n2 <= 1; ++n2) for (long n3 = -1; n3 <= 1; ++n3) { auto w = [&](long n) { return cd(0, (2 * n + 1) * M_PI / beta); }; sp.freqs.push_back(boost::make_tuple(w(n1), w(n2), w(n3))); }
+    }
     int threads = 1;
 #ifdef _OPENMP
     threads = omp_get_max_threads();
